@@ -3,6 +3,7 @@ package c06
 
 import (
 	"fmt"
+	"verif/internal/rig"
 
 	"verif/internal/pipe"
 	"verif/internal/vp"
@@ -29,6 +30,24 @@ func gen(seed int64, tier string, idx int) *pipe.Scenario {
 		at = 100 + g.R.Intn(600)
 	case 4:
 		at = -1 // idle (everything acked)
+	}
+	if idx%10 == 7 {
+		// a first stop request is abandoned by its caller (deadline of a few ms)
+		// while the source node is busy handing a record to a slow (healthy)
+		// processor; the stop is then repeated without deadline and has to complete
+		// like any other
+		slow := rig.ProcSpec{ID: "pslow"}
+		slow.Script.LatencyUs = []int{[]int{120000, 200000}[g.R.Intn(2)]}
+		sc.Topo.Sources = sc.Topo.Sources[:1]
+		sc.Records = []int{12 + g.R.Intn(10)}
+		sc.Topo.Sources[0].Src.Batches = []int{1, 2}
+		sc.Topo.Sources[0].Src.PaceUs = 0
+		sc.Topo.Sources[0].Procs = append([]rig.ProcSpec{slow}, sc.Topo.Sources[0].Procs...)
+		sc.Steps = append(sc.Steps,
+			pipe.Step{AtEvent: 20 + g.R.Intn(30), Op: "stopdl:" + []string{"30", "45", "60"}[g.R.Intn(3)]},
+			pipe.Step{AtEvent: 0, Op: "stopandwait", AfterPrevUs: []int{0, 2000, 50000, 120000}[g.R.Intn(4)]})
+		sc.Name = "abandoned-stop-then-stop"
+		return sc
 	}
 	sc.Steps = append(sc.Steps, pipe.Step{AtEvent: at, Op: "stopandwait", AfterPrevUs: []int{0, 0, 200, 3000}[g.R.Intn(4)]})
 	if g.R.Intn(3) == 0 {
